@@ -185,5 +185,53 @@ func sourceCalls() (map[string]string, bool) {
 		top = append(top, s)
 	}
 	out["top"] = strings.Join(callSet(imports, top, map[ast.Node]bool{swE.Body: true, swP.Body: true}), ",")
+	// the helpers Parse calls on its steady-state path, wherever they live in the package: whole-body call sets, and
+	// for findOrCreateHostWithLock also its read-locked fast path (the statements up to and including the first if)
+	helpers := map[string]*ast.FuncDecl{}
+	names, _ := filepath.Glob(filepath.Join(repo, "*.go"))
+	for _, n := range names {
+		if strings.HasSuffix(n, "_test.go") {
+			continue
+		}
+		f, err := parser.ParseFile(fset, n, nil, 0)
+		if err != nil {
+			return nil, false
+		}
+		imp := map[string]bool{}
+		for _, im := range f.Imports {
+			p, _ := strconv.Unquote(im.Path.Value)
+			name := p[strings.LastIndex(p, "/")+1:]
+			if im.Name != nil {
+				name = im.Name.Name
+			}
+			imp[name] = true
+			imports[name] = true
+		}
+		for _, d := range f.Decls {
+			if fd, ok := d.(*ast.FuncDecl); ok && fd.Body != nil {
+				switch fd.Name.Name {
+				case "echoNotify", "hostOnline", "onlineTransition", "findOrCreateHostWithLock":
+					helpers[fd.Name.Name] = fd
+				}
+			}
+		}
+	}
+	for _, h := range []string{"echoNotify", "hostOnline", "onlineTransition", "findOrCreateHostWithLock"} {
+		fd, ok := helpers[h]
+		if !ok {
+			return nil, false
+		}
+		out["fn:"+h] = strings.Join(callSet(imports, []ast.Node{fd.Body}, nil), ",")
+		if h == "findOrCreateHostWithLock" {
+			var fast []ast.Node
+			for _, s := range fd.Body.List {
+				fast = append(fast, s)
+				if _, isIf := s.(*ast.IfStmt); isIf {
+					break
+				}
+			}
+			out["fn:"+h+".fast"] = strings.Join(callSet(imports, fast, nil), ",")
+		}
+	}
 	return out, true
 }
